@@ -5,7 +5,8 @@ maintainer moves part of the body into a helper - `prev_ths = self._get_prev_ths
 gives the function as it reads with chosen helper calls expanded in place, so the rule applies to the same program
 whichever way it is cut up.  Nothing is executed; the expansion is a source-to-source rewriting with these limits:
 
-  call sites    statements of the forms  `x = h(..)`,  `h(..)`,  `return h(..)`,  where h is `self.<method>` of the
+  call sites    statements of the forms  `x = h(..)`,  `h(..)`,  `return h(..)`,  `if [not] h(..):` (h answering with
+                True / False only: each answer is replaced by the branch it selects),  where h is `self.<method>` of the
                 same class (or a base class in the repo), a function of the same module, or a function nested in the
                 caller; no *args / **kwargs on either side
   helpers       plain functions (no generator, no global / nonlocal, no decorator other than staticmethod) in which
@@ -204,9 +205,14 @@ def _bind(helper_node, call, receiver, is_method):
     return binding
 
 
-def expand_call(caller_names, helper, call, form, target=None):
-    """statements replacing the call statement.  form: 'assign' (target = ast target list), 'expr', 'return'"""
+def expand_call(caller_names, helper, call, form, target=None, branches=None):
+    """statements replacing the call statement.  form: 'assign' (target = ast target list), 'expr', 'return', or 'test':
+    the call is the condition of an `if` with the given (then, else) statement lists and the helper answers with
+    constants True / False only - each `return True` becomes the then-branch, each `return False` the else-branch"""
     hn = helper.node
+    if form == 'test':
+        from .cfg import desugar_bool_returns
+        hn = desugar_bool_returns(hn)
     if isinstance(hn, ast.AsyncFunctionDef):
         raise NotInlinable('async')
     decos = helper.decorators()
@@ -228,9 +234,28 @@ def expand_call(caller_names, helper, call, form, target=None):
             rename[nm] = '%s__%s' % (nm, hn.name.strip('_'))
     pre = []
     mapping = {}
+    # a parameter read exactly once, in a statement at the top of the helper's body (so: evaluated once, unconditionally, as
+    # the argument is): any argument expression may take its place
+    top_uses = {}
+    for st in hn.body:
+        for n in ([st] if isinstance(st, (ast.If, ast.For, ast.While, ast.Try, ast.With, ast.FunctionDef)) else ast.walk(st)):
+            if isinstance(n, ast.Name) and isinstance(n.ctx, ast.Load):
+                top_uses[n.id] = top_uses.get(n.id, 0) + 1
+        if isinstance(st, ast.If):
+            for n in ast.walk(st.test):
+                if isinstance(n, ast.Name) and isinstance(n.ctx, ast.Load):
+                    top_uses[n.id] = top_uses.get(n.id, 0) + 1
+    all_uses = {}
+    for n in ast.walk(hn):
+        if isinstance(n, ast.Name) and isinstance(n.ctx, ast.Load):
+            all_uses[n.id] = all_uses.get(n.id, 0) + 1
+    in_scope = {id(x) for n in ast.walk(hn) if isinstance(n, (ast.Lambda, ast.ListComp, ast.SetComp, ast.DictComp, ast.GeneratorExp)) for x in ast.walk(n)}
+    scoped = {n.id for n in ast.walk(hn) if isinstance(n, ast.Name) and id(n) in in_scope}
     for p, v in binding.items():
         path_ok = _simple(v) and not (isinstance(v, ast.Attribute) and has_attr_store)
-        if p not in stored and path_ok:
+        once = all_uses.get(p, 0) == 1 and top_uses.get(p, 0) == 1 and p not in scoped and not any(
+            isinstance(x, (ast.Lambda, ast.Yield, ast.Await, ast.NamedExpr)) for x in ast.walk(v))
+        if p not in stored and (path_ok or once):
             mapping[p] = v
         else:
             tgt = ast.Name(id=rename.get(p, p), ctx=ast.Store())
@@ -245,13 +270,20 @@ def expand_call(caller_names, helper, call, form, target=None):
         return pre + body + ([] if _terminates(body) else [ast.copy_location(ast.Return(value=None), call)])
 
     def ret(s):
+        if form == 'test':
+            v = s.value
+            if v is None or (isinstance(v, ast.Constant) and v.value is None):
+                return copy.deepcopy(branches[1])
+            if not (isinstance(v, ast.Constant) and isinstance(v.value, bool)):
+                raise NotInlinable('a predicate helper that returns something other than True / False')
+            return copy.deepcopy(branches[0] if v.value else branches[1]) or [ast.copy_location(ast.Pass(), s)]
         if form == 'assign':
             val = s.value if s.value is not None else ast.Constant(value=None)
             return [ast.copy_location(ast.Assign(targets=copy.deepcopy(target), value=val), s)]
         if s.value is not None and not isinstance(s.value, (ast.Constant, ast.Name)):
             return [ast.copy_location(ast.Expr(value=s.value), s)]
         return []
-    if form == 'assign' and not _terminates(body):
+    if form in ('assign', 'test') and not _terminates(body):
         body = body + [ast.copy_location(ast.Return(value=None), call)]
     out = _structure(body, ret)
     return pre + (out or [ast.copy_location(ast.Pass(), call)])
@@ -293,10 +325,18 @@ def inlined(func, want, depth=2):
                 call, form = s.value, 'expr'
             elif isinstance(s, ast.Return) and isinstance(s.value, ast.Call):
                 call, form = s.value, 'return'
+            branches = None
+            if isinstance(s, ast.If):
+                t, neg = s.test, False
+                if isinstance(t, ast.UnaryOp) and isinstance(t.op, ast.Not):
+                    t, neg = t.operand, True
+                if isinstance(t, ast.Call):
+                    call, form = t, 'test'
+                    branches = (s.orelse, s.body) if neg else (s.body, s.orelse)
             h = _resolve(func, call) if call is not None else None
             if h is not None and h.node is not func.node and h.qualname not in stack and level < depth and want(h):
                 try:
-                    new = expand_call(names, h, call, form, target)
+                    new = expand_call(names, h, call, form, target, branches)
                 except NotInlinable as ex:
                     left.append((h.qualname, str(ex), s.lineno))
                 else:
